@@ -27,6 +27,16 @@ size_t g_sink;  // results are folded into this and published through a volatile
 volatile size_t g_sink_out;
 void eat(std::string_view s) { size_t x = s.size(); for (char ch : s) x += (unsigned char)ch; g_sink += x; }
 
+// Every input is handed to the library as a view into a heap block of EXACTLY its size, without
+// a terminator behind it: a read of even one byte past the end of a view lands in ASan's red
+// zone (with a std::string it would read the string's own NUL and go unnoticed).
+struct Exact {
+  std::unique_ptr<char[]> p;
+  size_t n;
+  explicit Exact(std::string_view s) : p(new char[s.size() ? s.size() : 1]), n(s.size()) { if (n) memcpy(p.get(), s.data(), n); }
+  std::string_view sv() const { return std::string_view(p.get(), n); }
+};
+
 template <class U>
 void read_all(const U& u) {
   eat(u.get_href()); eat(u.get_protocol()); eat(u.get_username()); eat(u.get_password()); eat(u.get_host()); eat(u.get_hostname());
@@ -55,12 +65,12 @@ bool family_url(vf::ByteSource& b, std::string& trace) {
   trace = "parse(\"" + vf::show(in) + "\"" + (with_base ? ", \"" + vf::show(base) + "\"" : "") + ")";
   ada::result<U> r = ada::result<U>(U{});
   if (with_base) {
-    auto bb = ada::parse<U>(base);
+    auto bb = ada::parse<U>(Exact(base).sv());
     if (!bb) return false;
     read_all(*bb);
-    r = ada::parse<U>(in, &*bb);
+    r = ada::parse<U>(Exact(in).sv(), &*bb);
   } else {
-    r = ada::parse<U>(in);
+    r = ada::parse<U>(Exact(in).sv());
   }
   if (!r) return false;
   read_all(*r);
@@ -70,7 +80,7 @@ bool family_url(vf::ByteSource& b, std::string& trace) {
     unsigned op = b.below(15);
     std::string v = op < 10 ? (b.coin() ? b.raw(80) : vf::gen::setter_value(b, (int)op)) : "";
     trace += " ; " + vf::op_name((int)op) + "(\"" + vf::show(v) + "\")";
-    vf::apply_op(u, (int)op, v);
+    vf::apply_op(u, (int)op, Exact(v).sv());
     read_all(u);
   }
   return true;
@@ -85,18 +95,18 @@ bool family_urlcase(vf::ByteSource& b, std::string& trace) {
   trace = vf::render_case(uc);
   ada::result<U> r = ada::result<U>(U{});
   if (uc.has_base) {
-    auto bb = ada::parse<U>(uc.base);
+    auto bb = ada::parse<U>(Exact(uc.base).sv());
     if (!bb) return false;
     read_all(*bb);
-    r = ada::parse<U>(uc.input, &*bb);
+    r = ada::parse<U>(Exact(uc.input).sv(), &*bb);
   } else {
-    r = ada::parse<U>(uc.input);
+    r = ada::parse<U>(Exact(uc.input).sv());
   }
   if (!r) return false;
   read_all(*r);
   U u = *r;
   for (auto& op : uc.ops) {
-    vf::apply_op(u, op.setter, op.value);
+    vf::apply_op(u, op.setter, Exact(op.value).sv());
     read_all(u);
   }
   U copy = u;          // copies and moves must leave both sides readable
@@ -218,12 +228,14 @@ bool family_idna(vf::ByteSource& b, std::string& trace) {
     ada_owned_string o = ada_idna_to_ascii(s.data(), s.size()); ada_free_owned_string(o);
   }
   trace = "idna(\"" + vf::show(s) + "\")";
+  Exact exact_s(s);
+  const std::string_view sx = exact_s.sv();
   std::string out;
-  bool ok = ada::idna::to_ascii(s, out);
-  eat(out); eat(ada::idna::to_ascii(s)); eat(ada::idna::to_unicode(s));
-  std::string o2; g_sink += ada::idna::to_unicode(s, o2); eat(o2);
-  g_sink += ada::idna::contains_forbidden_domain_code_point(s) + ada::idna::verify_punycode(s);
-  std::u32string dec; g_sink += ada::idna::punycode_to_utf32(s, dec) + dec.size();
+  bool ok = ada::idna::to_ascii(sx, out);
+  eat(out); eat(ada::idna::to_ascii(sx)); eat(ada::idna::to_unicode(sx));
+  std::string o2; g_sink += ada::idna::to_unicode(sx, o2); eat(o2);
+  g_sink += ada::idna::contains_forbidden_domain_code_point(sx) + ada::idna::verify_punycode(sx);
+  std::u32string dec; g_sink += ada::idna::punycode_to_utf32(sx, dec) + dec.size();
   // arbitrary char32_t, incl. surrogates and values beyond U+10FFFF
   std::u32string w;
   unsigned n = b.below(12);
@@ -244,7 +256,8 @@ bool family_idna(vf::ByteSource& b, std::string& trace) {
 bool family_params(vf::ByteSource& b, std::string& trace) {
   std::string init = b.raw(80);
   trace = "url_search_params(\"" + vf::show(init) + "\")";
-  ada::url_search_params p(init);
+  Exact exact_init(init);
+  ada::url_search_params p(exact_init.sv());
   unsigned n = b.below(12);
   for (unsigned i = 0; i < n; i++) {
     std::string k = b.raw(10), v = b.raw(10);
@@ -267,23 +280,31 @@ bool family_misc(vf::ByteSource& b, std::string& trace) {
   trace = "can_parse/href_from_file(\"" + vf::show(s) + "\")";
   uint32_t L = b.coin() ? UINT32_MAX : b.below(400);
   ada::set_max_input_length(L);
-  std::string_view bv = base;
-  bool r = ada::can_parse(s);
-  r |= ada::can_parse(s, &bv);
-  auto u = ada::parse<ada::url_aggregator>(s);
-  if (u) { read_all(*u); u->set_pathname(base); u->set_host(base); u->set_search(base); read_all(*u); }
+  Exact exact_s(s), exact_base(base);
+  const std::string_view sx = exact_s.sv();
+  std::string_view bv = exact_base.sv();
+  bool r = ada::can_parse(sx);
+  r |= ada::can_parse(sx, &bv);
+  auto u = ada::parse<ada::url_aggregator>(sx);
+  if (u) { read_all(*u); u->set_pathname(bv); u->set_host(bv); u->set_search(bv); read_all(*u); }
   ada::set_max_input_length(UINT32_MAX);
-  eat(ada::href_from_file(s));
+  eat(ada::href_from_file(sx));
   g_sink += ada::get_max_input_length();
-  eat(ada::unicode::percent_decode(s, s.find('%')));
-  eat(ada::unicode::form_urlencoded_decode(s));
-  eat(ada::unicode::percent_encode(s, ada::character_sets::PATH_PERCENT_ENCODE));
+  eat(ada::unicode::percent_decode(sx, sx.find('%')));
+  eat(ada::unicode::form_urlencoded_decode(sx));
+  eat(ada::unicode::percent_encode(sx, ada::character_sets::PATH_PERCENT_ENCODE));
   return r;
 }
 
 bool family_c_api(vf::ByteSource& b, std::string& trace) {
   std::string s = bytes(b, 200), base = bytes(b, 100), v = b.raw(40);
   trace = "C API(\"" + vf::show(s) + "\")";
+  Exact exact_s(s), exact_base(base), exact_v(v);
+  struct View { const char* d; size_t n; const char* data() const { return d; } size_t size() const { return n; } };
+  const View s_{exact_s.p.get(), exact_s.n}, base_{exact_base.p.get(), exact_base.n}, v_{exact_v.p.get(), exact_v.n};
+#define s s_
+#define base base_
+#define v v_
   ada_url u = b.coin() ? ada_parse(s.data(), s.size()) : ada_parse_with_base(s.data(), s.size(), base.data(), base.size());
   bool ok = ada_is_valid(u);
   ada_set_host(u, v.data(), v.size()); ada_set_pathname(u, v.data(), v.size()); ada_set_search(u, v.data(), v.size()); ada_set_hash(u, v.data(), v.size());
@@ -308,6 +329,9 @@ bool family_c_api(vf::ByteSource& b, std::string& trace) {
   ada_free_search_params(p);
   return ok;
 }
+#undef s
+#undef base
+#undef v
 
 }  // namespace
 
